@@ -52,6 +52,7 @@ type State struct {
 	alloc    Term
 	regs     map[string]Value // SSA register name -> value
 	names    map[string]Value // source-level names (DebugRef, phi comments, params)
+	snaps    map[string]*HeapSnap // named heap snapshots (loop N snap S)
 	ntypes   map[string]types.Type
 	defers   []deferred
 	trace    []int
@@ -78,6 +79,7 @@ func (st *State) clone() *State {
 		alloc:    st.alloc,
 		regs:     make(map[string]Value, len(st.regs)),
 		names:    make(map[string]Value, len(st.names)),
+		snaps:    make(map[string]*HeapSnap, len(st.snaps)),
 		ntypes:   st.ntypes,
 		defers:   append([]deferred(nil), st.defers...),
 		trace:    append([]int(nil), st.trace...),
@@ -101,6 +103,9 @@ func (st *State) clone() *State {
 	}
 	for k, v := range st.names {
 		n.names[k] = v
+	}
+	for k, v := range st.snaps {
+		n.snaps[k] = v
 	}
 	for k, v := range st.loops {
 		n.loops[k] = v
